@@ -4,8 +4,8 @@ use crate::wal::block::Block;
 #[cfg(target_os = "linux")]
 use crate::wal::block::Metadata;
 use crate::wal::config::{
-    DEFAULT_BLOCK_SIZE, FsyncSchedule, MAX_BATCH_BYTES, MAX_BATCH_ENTRIES, PREFIX_META_SIZE,
-    debug_print,
+    DEFAULT_BLOCK_SIZE, FsyncSchedule, MAX_ALLOC, MAX_BATCH_BYTES, MAX_BATCH_ENTRIES, MAX_FILE_SIZE,
+    PREFIX_META_SIZE, debug_print,
 };
 #[cfg(target_os = "linux")]
 use crate::wal::config::{USE_FD_BACKEND, checksum64};
@@ -169,6 +169,20 @@ impl Writer {
             return Err(std::io::Error::new(
                 std::io::ErrorKind::InvalidInput,
                 "batch exceeds 10GB limit",
+            ));
+        }
+
+        // An entry no block can hold has to be rejected here, before planning starts: planning seals
+        // blocks and switches the active block as it goes, and the allocator would only refuse the
+        // oversized entry after earlier entries of the batch had already caused that.
+        let max_entry = MAX_ALLOC.min(MAX_FILE_SIZE);
+        if batch
+            .iter()
+            .any(|data| (PREFIX_META_SIZE as u64) + (data.len() as u64) > max_entry)
+        {
+            return Err(std::io::Error::new(
+                std::io::ErrorKind::InvalidInput,
+                "invalid allocation size, a single entry can't be more than 1gb",
             ));
         }
 
